@@ -4,7 +4,7 @@
    Tables ([*_alphas], [*_betas], ...) are the ones committed in Model/PwlData.v; the harness checks on
    every run that the Rust code still builds exactly these (case kind T:tables_eq). *)
 From Coq Require Import Reals.
-From CC Require Import Base.Prelude Model.Fixed Model.PwlData.
+From CC Require Import Base.Prelude Model.Fixed Model.PwlData Model.Taylor.
 From CC Require Import Proofs.FixedBits Proofs.FixedPwl Proofs.FixedNewton Proofs.FixedIsqrt8u Proofs.FixedIsqrt
   Proofs.FixedGold Proofs.PwlReal Proofs.PwlTotal.
 From CC Require Import Proofs.PwlTables_exp_p10 Proofs.PwlTables_exp_p15 Proofs.PwlTables_sigmoid_p10
@@ -44,24 +44,22 @@ Proof. exact pwl_segment_spec. Qed.
 (* ------------------------------------------------------------------ (b) the tables the code has now *)
 (* Per segment, at EVERY real x of the stretch that selects it (interval arithmetic):
    |alpha_i x + beta_i - f x| <= rel * f x + abs, in real units (alpha/2^p, beta/2^(2p)). *)
-Theorem C20_exp_p10_table :
-  table_bound exp_fn (4/100) (1/1024) 10 6 exp_p10_left exp_p10_divisor exp_p10_alphas exp_p10_betas.
-Proof. exact exp_p10_table. Qed.
-Theorem C20_exp_p15_table :
-  table_bound exp_fn (4/100) (1/32768) 15 6 exp_p15_left exp_p15_divisor exp_p15_alphas exp_p15_betas.
-Proof. exact exp_p15_table. Qed.
-Theorem C20_sigmoid_p10_table :
-  table_bound sigmoid_fn 0 (45/10000) 10 5 sigmoid_p10_left sigmoid_p10_divisor sigmoid_p10_alphas sigmoid_p10_betas.
-Proof. exact sigmoid_p10_table. Qed.
-Theorem C20_sigmoid_p15_table :
-  table_bound sigmoid_fn 0 (45/10000) 15 5 sigmoid_p15_left sigmoid_p15_divisor sigmoid_p15_alphas sigmoid_p15_betas.
-Proof. exact sigmoid_p15_table. Qed.
-Theorem C20_gelu_p10_table :
-  table_bound gelu_fn 0 (7/1000) 10 5 gelu_p10_left gelu_p10_divisor gelu_p10_alphas gelu_p10_betas.
-Proof. exact gelu_p10_table. Qed.
-Theorem C20_gelu_p15_table :
-  table_bound gelu_fn 0 (7/1000) 15 5 gelu_p15_left gelu_p15_divisor gelu_p15_alphas gelu_p15_betas.
-Proof. exact gelu_p15_table. Qed.
+Theorem C20_pwl_tables :
+  (table_bound exp_fn (4/100) (1/1024) 10 6 exp_p10_left exp_p10_divisor exp_p10_alphas exp_p10_betas) /\
+  (table_bound exp_fn (4/100) (1/32768) 15 6 exp_p15_left exp_p15_divisor exp_p15_alphas exp_p15_betas) /\
+  (table_bound sigmoid_fn 0 (45/10000) 10 5 sigmoid_p10_left sigmoid_p10_divisor sigmoid_p10_alphas sigmoid_p10_betas) /\
+  (table_bound sigmoid_fn 0 (45/10000) 15 5 sigmoid_p15_left sigmoid_p15_divisor sigmoid_p15_alphas sigmoid_p15_betas) /\
+  (table_bound gelu_fn 0 (7/1000) 10 5 gelu_p10_left gelu_p10_divisor gelu_p10_alphas gelu_p10_betas) /\
+  (table_bound gelu_fn 0 (7/1000) 15 5 gelu_p15_left gelu_p15_divisor gelu_p15_alphas gelu_p15_betas).
+Proof.
+  repeat split.
+  - exact exp_p10_table.
+  - exact exp_p15_table.
+  - exact sigmoid_p10_table.
+  - exact sigmoid_p15_table.
+  - exact gelu_p10_table.
+  - exact gelu_p15_table.
+Qed.
 
 (* (a) + (b): the output WORD of the integer evaluation against the exact function, at every
    fixed-point input of (left - divisor, right):
@@ -69,36 +67,41 @@ Proof. exact gelu_p15_table. Qed.
      sigmoid  [-8.5, 8)    : 0.0045 + 1 unit
      GeLU     [-4.25, 4)   : 0.007 + 1 unit   (tanh form, the function the code tabulates) *)
 Open Scope R_scope.
-Theorem C20_exp_p10_close : forall x out, word x -> (-16896 < sv 64 x < 16384)%Z ->
+Definition C20_exp_p10_close_stmt : Prop := forall x out, word x -> (-16896 < sv 64 x < 16384)%Z ->
   pwl_eval 10 6 exp_p10_alphas exp_p10_betas exp_p10_left exp_p10_divisor x = Ok out ->
   Rabs (IZR (sv 64 out) / 1024 - exp (IZR (sv 64 x) / 1024))
   <= 4/100 * exp (IZR (sv 64 x) / 1024) + 1/1024 + 1/1024.
-Proof. exact exp_p10_total. Qed.
-Theorem C20_exp_p15_close : forall x out, word x -> (-540672 < sv 64 x < 524288)%Z ->
+Definition C20_exp_p15_close_stmt : Prop := forall x out, word x -> (-540672 < sv 64 x < 524288)%Z ->
   pwl_eval 15 6 exp_p15_alphas exp_p15_betas exp_p15_left exp_p15_divisor x = Ok out ->
   Rabs (IZR (sv 64 out) / 32768 - exp (IZR (sv 64 x) / 32768))
   <= 4/100 * exp (IZR (sv 64 x) / 32768) + 1/32768 + 1/32768.
-Proof. exact exp_p15_total. Qed.
-Theorem C20_sigmoid_p10_close : forall x out, word x -> (-8704 < sv 64 x < 8192)%Z ->
+Definition C20_sigmoid_p10_close_stmt : Prop := forall x out, word x -> (-8704 < sv 64 x < 8192)%Z ->
   pwl_eval 10 5 sigmoid_p10_alphas sigmoid_p10_betas sigmoid_p10_left sigmoid_p10_divisor x = Ok out ->
   Rabs (IZR (sv 64 out) / 1024 - 1 / (1 + exp (- (IZR (sv 64 x) / 1024))))
   <= 0 * (1 / (1 + exp (- (IZR (sv 64 x) / 1024)))) + 45/10000 + 1/1024.
-Proof. exact sigmoid_p10_total. Qed.
-Theorem C20_sigmoid_p15_close : forall x out, word x -> (-278528 < sv 64 x < 262144)%Z ->
+Definition C20_sigmoid_p15_close_stmt : Prop := forall x out, word x -> (-278528 < sv 64 x < 262144)%Z ->
   pwl_eval 15 5 sigmoid_p15_alphas sigmoid_p15_betas sigmoid_p15_left sigmoid_p15_divisor x = Ok out ->
   Rabs (IZR (sv 64 out) / 32768 - 1 / (1 + exp (- (IZR (sv 64 x) / 32768))))
   <= 0 * (1 / (1 + exp (- (IZR (sv 64 x) / 32768)))) + 45/10000 + 1/32768.
-Proof. exact sigmoid_p15_total. Qed.
-Theorem C20_gelu_p10_close : forall x out, word x -> (-4352 < sv 64 x < 4096)%Z ->
+Definition C20_gelu_p10_close_stmt : Prop := forall x out, word x -> (-4352 < sv 64 x < 4096)%Z ->
   pwl_eval 10 5 gelu_p10_alphas gelu_p10_betas gelu_p10_left gelu_p10_divisor x = Ok out ->
   Rabs (IZR (sv 64 out) / 1024 - gelu_fn (IZR (sv 64 x) / 1024))
   <= 0 * gelu_fn (IZR (sv 64 x) / 1024) + 7/1000 + 1/1024.
-Proof. exact gelu_p10_total. Qed.
-Theorem C20_gelu_p15_close : forall x out, word x -> (-139264 < sv 64 x < 131072)%Z ->
+Definition C20_gelu_p15_close_stmt : Prop := forall x out, word x -> (-139264 < sv 64 x < 131072)%Z ->
   pwl_eval 15 5 gelu_p15_alphas gelu_p15_betas gelu_p15_left gelu_p15_divisor x = Ok out ->
   Rabs (IZR (sv 64 out) / 32768 - gelu_fn (IZR (sv 64 x) / 32768))
   <= 0 * gelu_fn (IZR (sv 64 x) / 32768) + 7/1000 + 1/32768.
-Proof. exact gelu_p15_total. Qed.
+Theorem C20_pwl_close :
+  C20_exp_p10_close_stmt /\ C20_exp_p15_close_stmt /\ C20_sigmoid_p10_close_stmt /\ C20_sigmoid_p15_close_stmt /\ C20_gelu_p10_close_stmt /\ C20_gelu_p15_close_stmt.
+Proof.
+  repeat split.
+  - exact exp_p10_total.
+  - exact exp_p15_total.
+  - exact sigmoid_p10_total.
+  - exact sigmoid_p15_total.
+  - exact gelu_p10_total.
+  - exact gelu_p15_total.
+Qed.
 (* gelu_fn is 0.5 x (1 + tanh(sqrt(2/pi) (x + 0.044715 x^3))) with the standard library's tanh *)
 Theorem C20_gelu_fn_def : forall x,
   gelu_fn x = 5/10 * x * (1 + tanh (sqrt (2 / PI) * (x + 44715/1000000 * (x * x * x)))).
@@ -191,15 +194,19 @@ Example C20_example_values :
     = Ok 18446744073709551454 /\
   multiply_fixed_point 64 true (wrap 64 (-3000)) 2048 10 = wrap 64 (-6000).
 Proof. vm_compute. repeat split; reflexivity. Qed.
+(* TaylorExponent is modelled and tied only (no theorem): exp(1) at precision 10, and the cutoff that
+   compares x / ln 2 (not x) with -10: exp(-7.6) 2^15 = 16 units is returned as 0 at precision 15 *)
+Example C20_example_taylor :
+  taylor_exponent 5 10 1477 709 1024 = Ok 2776 /\
+  taylor_exponent 5 15 47274 22713 (wrap 64 (-249842)) = Ok 0.
+Proof. vm_compute. split; reflexivity. Qed.
 Example C20_example_domain : word 1024 /\ (-16896 < sv 64 1024 < 16384) /\ In 123456 gold_dividends.
 Proof. vm_compute. repeat split; try discriminate; auto 10. Qed.
 
 Print Assumptions C20_pwl_int_close.
 Print Assumptions C20_pwl_segment_spec.
-Print Assumptions C20_exp_p10_table.
-Print Assumptions C20_exp_p10_close.
-Print Assumptions C20_sigmoid_p15_close.
-Print Assumptions C20_gelu_p15_close.
+Print Assumptions C20_pwl_tables.
+Print Assumptions C20_pwl_close.
 Print Assumptions C20_newton_recip.
 Print Assumptions C20_isqrt.
 Print Assumptions C20_goldschmidt.
